@@ -2,7 +2,8 @@
   C20 — The protocol core reaches the outside world only through the port API.
   A finite statement about build products: the tables in Generated/Symbols.lean
   are produced by tools/props/c20.py from the working tree on every run
-  (12 compiler configurations, `ld -r`, `nm -u`; the declarators of the
+  (12 native compiler configurations with `ld -r` + `nm -u`, 6 cross-target ones — Apple hosted, 32-bit x86, bare-metal ARM —
+  with `llvm-nm`; the declarators of the
   preprocessed lltdPort.h; include lines; the lint's two regexes).  The
   translator carries the weight and is in the trusted base.
 -/
@@ -16,7 +17,11 @@ def memPrims : List String := ["memcpy", "memset", "memmove", "memcmp"]
 /-- compiler runtime (libgcc / compiler-rt / linker) symbols -/
 def compilerRt : List String :=
   ["__stack_chk_fail", "__stack_chk_guard", "_GLOBAL_OFFSET_TABLE_", "__udivdi3", "__umoddi3", "__divdi3", "__moddi3",
-   "__muldi3", "__ashldi3", "__lshrdi3", "__ashrdi3", "__udivmoddi4", "__bswapsi2", "__bswapdi2"]
+   "__muldi3", "__ashldi3", "__lshrdi3", "__ashrdi3", "__udivmoddi4", "__bswapsi2", "__bswapdi2",
+   -- ARM EABI run-time helpers (bare-metal ARM configuration)
+   "__aeabi_memcpy", "__aeabi_memcpy4", "__aeabi_memcpy8", "__aeabi_memmove", "__aeabi_memmove4", "__aeabi_memmove8", "__aeabi_memset", "__aeabi_memset4",
+   "__aeabi_memset8", "__aeabi_memclr", "__aeabi_memclr4", "__aeabi_memclr8", "__aeabi_uldivmod", "__aeabi_ldivmod", "__aeabi_uidiv", "__aeabi_uidivmod",
+   "__aeabi_idiv", "__aeabi_idivmod", "__aeabi_lmul", "__aeabi_llsl", "__aeabi_llsr", "__aeabi_lasr"]
 
 /-- headers a freestanding C implementation provides -/
 def freestandingHeaders : List String :=
@@ -24,8 +29,8 @@ def freestandingHeaders : List String :=
 
 def symbolOk (s : String) : Bool := Sym.portApi.contains s || memPrims.contains s || compilerRt.contains s
 
-/-- all twelve configurations produced a symbol table -/
-theorem configurations : Sym.undef.length = 12 := by decide
+/-- all eighteen configurations (twelve native, six for other targets the repository has ports for) produced a symbol table -/
+theorem configurations : Sym.undef.length = 18 := by decide
 
 /-- every undefined symbol of the relocatably linked core, under every configuration, is a port function,
     a memory primitive or compiler runtime -/
